@@ -271,6 +271,13 @@ def run(case, rec):
     if not rec.check(call.ok, "no-exception", f"locate_droplets raised {call.exc!r}"):
         return
     found = list(call.result)
+    # the grid is shared input: analysing once more on the same grid object must give the same answer
+    again = common.monitored(rec, "locate_droplets", droplets.locate_droplets, field)
+    if rec.check(again.ok, "no-exception", f"a second locate_droplets call on the same field raised {again.exc!r}"):
+        same = len(again.result) == len(found) and all(common.droplet_bytes(a_) == common.droplet_bytes(b_) for a_, b_ in zip(again.result, found))
+        rec.check(same, "repeatable",
+                  f"a second analysis of the same field on the same grid object gives a different result: "
+                  f"{[(list(map(float, d.position)), d.radius) for d in again.result]} vs {[(list(map(float, d.position)), d.radius) for d in found]}")
 
     aniso = float(h.max() / h.min()) > 1.05 if len(h) > 1 else False
     split = any(t["pieces"] >= 2 for t in truth)
